@@ -36,7 +36,8 @@
 
   TIED ONLY (model = implementation on the explored inputs; the theorems above are about these functions)
   driver ops `helper_rot`, `lt_index`, `generated`, `required`, `inventory`, `needed`, `layout`, `stages`, `output`,
-  `scaleconst`, `scaledown`, `mod1_gain`, `dft_layers` (exact exponents of every entry of the fully split factorisation, for
+  `scaleconst`, `scaledown`, `mod1_gain`, `default_list`/`default_literal`/`default_source`/`default_announced` (every shipped default
+  parameter set, runtime value and source literal, against the table `Model/BootstrapDefaults.lean`), `dft_layers` (exact exponents of every entry of the fully split factorisation, for
   every format — doubled diagonals, repacking first matrix, masked last matrix — and both layouts `BitReversed ∈ {false,true}`:
   model `genMatricesFull`, §11 of the model; the theorems of §6 are about the length-`slots`, non-bit-reversed case).
   That `mod1.EvaluateNew` consumes `Depth()` levels is taken from `stages`. The entries of MERGED matrices are floats in
